@@ -40,6 +40,16 @@ def hmap(items):
     for k, l, v in items: h.slots.append([k, l, Cell(v)])
     return h
 
+def _and(a, b):
+    if isinstance(a, bool): return b if a else False
+    if isinstance(b, bool): return a if b else False
+    return z3.And(a, b)
+
+def _or(a, b):
+    if isinstance(a, bool): return True if a else b
+    if isinstance(b, bool): return True if b else a
+    return z3.Or(a, b)
+
 def opt_sym(cond, v):
     """Option whose Some-ness is the Bool `cond`"""
     if isinstance(cond, bool): return some(v) if cond else NONE()
@@ -59,9 +69,9 @@ class Spec:
     """what is symbolic in a world (defaults = the quick tier)"""
     def __init__(self, **kw):
         self.nicks = ['alice', 'bob', 'carol']
-        self.hosts = {'alice': 'h1', 'bob': 'h2', 'carol': 'h1', 'dave': 'h2'}
+        self.hosts = {}                 # all clients connect from 127.0.0.1 (as in native replay)
         self.chans = ['#x', '&y']
-        self.masks = ['*!*@h1', 'bob!*@*']           # ban / exception / invite-exception menu
+        self.masks = ['a*!*@*', 'bob!*@*']           # ban / exception / invite-exception menu (relative to the nick universe)
         self.server = 'irc.irc'
         self.sym_users = False          # bob, carol, ... registered or not
         self.sym_modes = True           # user modes symbolic
@@ -79,6 +89,7 @@ class Spec:
         self.sym_caps = True
         self.sym_counters = False       # counters independent symbolic values constrained by Inv (else built as sums)
         self.sym_history = False
+        self.plain_chans = []           # channels whose attributes are concrete defaults: only existence, key and the actor's membership stay symbolic
         self.operators = []             # [(name, hash, mask|None)]
         self.cfg_users = []             # [(name, nick, hash|None, mask|None)]
         self.password = None            # server password hash
@@ -92,8 +103,10 @@ class Spec:
         self.__dict__.update(kw)
 
 class World:
-    def __init__(self, M, prog, spec=None):
+    def __init__(self, M, prog, spec=None, fixed=None, partial=None):
         self.M, self.prog, self.spec = M, prog, spec or Spec()
+        self.fixed = fixed
+        self.partial = partial or {}
         self.v = {}          # name -> z3 var
         self.queues = {}     # nick -> Chan (the user's outgoing queue = what its connection will write)
         self.kill = {}       # nick -> OneShot (quit channel)
@@ -104,15 +117,25 @@ class World:
     # symbolic variable helpers ----------------------------------------------------------------------
     def B(self, name, sym=True, default=False):
         if not sym: return default
+        for pc in self.spec.plain_chans:
+            if name.endswith('_' + pc) or ('_' + pc + '_') in name:
+                if not (name == 'exists_' + pc or name == 'haskey_' + pc or name == f'mem_{self.spec.nicks[0]}_{pc}'):
+                    return default
+        if self.fixed is not None:
+            return bool(self.fixed.get(name, default))
+        if name in self.partial:
+            return bool(self.partial[name])
         if name not in self.v: self.v[name] = z3.Bool(name)
         return self.v[name]
 
     def W(self, name, w=64):
+        if self.fixed is not None:
+            return int(self.fixed.get(name, 0))
         if name not in self.v: self.v[name] = z3.BitVec(name, w)
         return self.v[name]
 
     def source(self, n):
-        return f'{n}!~{n}@{self.spec.hosts.get(n, "h9")}'
+        return f'{n}!~{n}@{self.spec.hosts.get(n, "127.0.0.1")}'
 
     # construction --------------------------------------------------------------------------------------
     def build(self):
@@ -138,13 +161,16 @@ class World:
         # Inv: membership only between registered users and existing channels; non-preconfigured channels are not empty
         for n in sp.nicks:
             for c in sp.chans:
-                M.assume(z3.Implies(self.member[(n, c)], z3.And(self._b(self.exists[c]), self._b(self.reg[n]))))
+                M.assume(z3.Implies(self._b(self.member[(n, c)]), z3.And(self._b(self.exists[c]), self._b(self.reg[n]))))
+                # an invitation is consumed by joining and INVITE refuses members: never both
+                M.assume(z3.Not(z3.And(self._b(self.member[(n, c)]), self._b(self.invited[(n, c)]))))
+                M.assume(z3.Implies(self._b(self.invited[(n, c)]), z3.And(self._b(self.exists[c]), self._b(self.reg[n]))))
         for c in sp.chans:
-            M.assume(z3.Implies(z3.And(self._b(self.exists[c]), z3.Not(self._b(self.preconf[c]))), z3.Or([self.member[(n, c)] for n in sp.nicks])))
+            M.assume(z3.Implies(z3.And(self._b(self.exists[c]), z3.Not(self._b(self.preconf[c]))), z3.Or([self._b(self.member[(n, c)]) for n in sp.nicks])))
             if sp.sym_default_modes:
                 for n in sp.nicks:
                     for r in RANKS:
-                        M.assume(z3.Implies(self.defmode[(n, c, r)], self._b(self.preconf[c])))
+                        M.assume(z3.Implies(self._b(self.defmode[(n, c, r)]), self._b(self.preconf[c])))
         # users ------------------------------------------------------------------------------------
         users = HMap(False)
         self.user_cells = {}
@@ -152,13 +178,13 @@ class World:
             ch = Chan(n); self.queues[n] = ch
             os_ = OneShot('kill_' + n); self.kill[n] = os_
             modes = S('UserModes', **{m: self.umode[(n, m)] for m in UMODES})
-            u = S('User', hostname=mkstring(sp.hosts[n]), sender=mk_sender(ch), quit_sender=some(mk_oneshot_sender(os_)),
+            u = S('User', hostname=mkstring(sp.hosts.get(n, '127.0.0.1')), sender=mk_sender(ch), quit_sender=some(mk_oneshot_sender(os_)),
                   name=mkstring(n), realname=mkstring('Real ' + n), source=mkstring(self.source(n)), modes=modes,
                   away=opt_sym(self.away[n], mkstring(sp.away_text)),
                   channels=hset([(c, self.member[(n, c)]) for c in sp.chans]),
                   invited_to=hset([(c, self.invited[(n, c)]) for c in sp.chans]),
                   last_activity=1000, signon=900,
-                  history_entry=S('NickHistoryEntry', username=mkstring(n), hostname=mkstring(sp.hosts[n]), realname=mkstring('Real ' + n), signon=900))
+                  history_entry=S('NickHistoryEntry', username=mkstring(n), hostname=mkstring(sp.hosts.get(n, '127.0.0.1')), realname=mkstring('Real ' + n), signon=900))
             cell = Cell(u); self.user_cells[n] = cell
             users.slots.append([n, self.reg[n], cell])
         M.env['wall_min'] = z3.BitVecVal(1000, 64)
@@ -167,7 +193,7 @@ class World:
         self.chan_cells = {}
         for c in sp.chans:
             def rs(r):
-                return some(hset([(n, z3.And(self.member[(n, c)], self._b(self.rank[(n, c, r)]))) for n in sp.nicks]))
+                return some(hset([(n, _and(self.member[(n, c)], self.rank[(n, c, r)])) for n in sp.nicks]))
             modes = S('ChannelModes',
                       ban=some(hset([(m, self.ban[(c, m)]) for m in sp.masks])),
                       exception=some(hset([(m, self.exc[(c, m)]) for m in sp.masks])),
@@ -178,21 +204,26 @@ class World:
                       invite_only=self.flag[(c, 'invite_only')], moderated=self.flag[(c, 'moderated')], secret=self.flag[(c, 'secret')],
                       protected_topic=self.flag[(c, 'protected_topic')], no_external_messages=self.flag[(c, 'no_external_messages')])
             dm = S('ChannelDefaultModes', **{RANK_SETS[r]: hset([(n, self.defmode[(n, c, r)]) for n in sp.nicks]) for r in RANKS})
-            topic = S('ChannelTopic', topic=mkstring(sp.topic_text), nick=mkstring('carol'), set_time=950)
+            topic = S('ChannelTopic', topic=mkstring(sp.topic_text), nick=mkstring('zz'), set_time=950)
             cu = hmap([(n, self.member[(n, c)], S('ChannelUserModes', **{r: self.rank[(n, c, r)] for r in RANKS})) for n in sp.nicks])
             chn = S('Channel', topic=opt_sym(self.hastopic[c], topic), modes=modes, default_modes=dm,
-                    ban_info=hmap([(m, self.ban[(c, m)], S('BanInfo', set_time=940, who=mkstring('bob'))) for m in sp.masks]),
+                    ban_info=hmap([(m, self.ban[(c, m)], S('BanInfo', set_time=940, who=mkstring('zz'))) for m in sp.masks]),
                     users=cu, creation_time=800, preconfigured=self.preconf[c])
             cell = Cell(chn); self.chan_cells[c] = cell
             channels.slots.append([c, self.exists[c], cell])
         # counters -----------------------------------------------------------------------------------
-        inv_count = bsum([z3.And(self._b(self.reg[n]), self._b(self.umode[(n, 'invisible')])) for n in sp.nicks])
-        op_count = bsum([z3.And(self._b(self.reg[n]), z3.Or(self._b(self.umode[(n, 'oper')]), self._b(self.umode[(n, 'local_oper')]))) for n in sp.nicks])
+        inv_count = bsum([_and(self.reg[n], self.umode[(n, 'invisible')]) for n in sp.nicks])
+        op_count = bsum([_and(self.reg[n], _or(self.umode[(n, 'oper')], self.umode[(n, 'local_oper')])) for n in sp.nicks])
         nusers = bsum([self.reg[n] for n in sp.nicks])
         if sp.sym_counters:
             self.c_inv, self.c_op, self.c_max = self.W('cnt_invisible'), self.W('cnt_operators'), self.W('cnt_max_users')
             M.assume(self.c_inv == inv_count); M.assume(self.c_op == op_count)
             M.assume(z3.UGE(self.c_max, nusers if is_sym(nusers) else z3.BitVecVal(nusers, 64)))
+            M.assume(z3.ULT(self.c_max, z3.BitVecVal(1 << 40, 64)))
+        elif self.fixed is not None:
+            self.c_inv, self.c_op = inv_count, op_count
+            self.c_max = z3.BitVec('cnt_max_users', 64)      # the helper user of the native replay makes this opaque
+            M.assume(z3.UGE(self.c_max, z3.BitVecVal(nusers, 64) if not is_sym(nusers) else nusers))
             M.assume(z3.ULT(self.c_max, z3.BitVecVal(1 << 40, 64)))
         else:
             self.c_inv, self.c_op = inv_count, op_count
@@ -205,7 +236,7 @@ class World:
                 hist.slots.append([n, self.B('hist_' + n), Cell(VecV([S('NickHistoryEntry', username=mkstring('olduser'), hostname=mkstring('h3'), realname=mkstring('Old'), signon=100)]))])
         self.server_quit = OneShot('server_quit')
         vs = S('VolatileState', users=users, channels=channels,
-               wallops_users=hset([(n, z3.And(self._b(self.reg[n]), self._b(self.umode[(n, 'wallops')]))) for n in sp.nicks]),
+               wallops_users=hset([(n, _and(self.reg[n], self.umode[(n, 'wallops')])) for n in sp.nicks]),
                invisible_users_count=self.c_inv, operators_count=self.c_op, max_users_count=self.c_max,
                nick_histories=hist, quit_sender=some(mk_oneshot_sender(self.server_quit)), quit_receiver=NONE())
         self.vs = vs
@@ -252,7 +283,7 @@ class World:
             ch = Chan('conn_' + key); kill = OneShot('kill_conn_' + key)
             sender = some(mk_sender(ch)); quit_sender = some(mk_oneshot_sender(kill))
             self.queues.setdefault('conn:' + key, ch); self.kill.setdefault('conn:' + key, kill)
-        host = sp.hosts.get(nick or 'dave', 'h9')
+        host = sp.hosts.get(nick or 'dave', '127.0.0.1')
         uname = name if name is not None else (nick if registered else None)
         src = ''
         if nick: src += nick + '!'
